@@ -37,7 +37,8 @@ class Parser(Emitter):
             formulaserror.release_tracebacks()
 
         if isinstance(result, formulaserror.XLError):
-            error = str(result)
+            # report the canonical code: a host callback may hand back an XLError of its own making
+            error = str(formulaserror.from_message(result))
             result = None
         return {'result': result, 'error': error}
 
